@@ -699,3 +699,36 @@ def vclass(kind: str, v: Any) -> str:
             return "pos"
         return "neg-frac" if us % 10**6 else "neg-whole"
     return "?"
+
+
+# ---------------------------------------------------------------------------
+# complete internal state of a betterproto object (for explicit-state search)
+
+
+def canon_internal(obj) -> Any:
+    """Everything in a Message's __dict__, recursively, as a JSON-able value."""
+    import betterproto
+
+    if isinstance(obj, betterproto.Message):
+        d = object.__getattribute__(obj, "__dict__")
+        fields = {}
+        for k in sorted(d):
+            if k.startswith("_"):
+                continue
+            fields[k] = canon_internal(d[k])
+        return {
+            "cls": type(obj).__name__,
+            "f": fields,
+            "gc": dict(sorted((k, v) for k, v in d.get("_group_current", {}).items())),
+            "sow": d.get("_serialized_on_wire"),
+            "unk": bytes(d.get("_unknown_fields", b"")).hex(),
+        }
+    if obj is betterproto.PLACEHOLDER:
+        return "<P>"
+    if isinstance(obj, list):
+        return [canon_internal(x) for x in obj]
+    if isinstance(obj, dict):
+        return {"$d": sorted(([canon(k), canon_internal(v)] for k, v in obj.items()), key=repr)}
+    if isinstance(obj, betterproto.Enum):
+        return {"$e": int(obj), "n": obj.name}
+    return canon(obj)
